@@ -149,21 +149,19 @@ Lemma map_flat_map : forall A B C (f : B -> C) (g : A -> list B) l,
   map f (flat_map g l) = flat_map (fun x => map f (g x)) l.
 Proof. intros. induction l; cbn; auto. now rewrite map_app, IHl. Qed.
 
-(* connections present while the pass is serviced: the established ones (after transmitIx) and
-   those whose handshake completes in this pass *)
-Definition present (p : pass) (sv : server) : list (N * conn) :=
-  tx_all (p_tx p) (ixes sv) ++
-  map (fun ca => (ca, init true)) (snd (fst (service_cxes (p_hs p) (cxes sv)))).
+(* connections present while the pass is serviced: the established ones (after transmitIx), those accepted in
+   this pass (replacing an older connection of the same address) and those whose handshake completes in it *)
+Definition present (c : cfg) (p : pass) (sv : server) : list (N * conn) := fst (fst (staged c p sv)).
 
 Theorem isolation : forall c p sv,
   (forall ca, no_raise_send c (send_of (p_io p) ca) = true) ->
   snd (service c p sv) = Ok tt /\
-  ixes (fst (service c p sv)) = flat_map (alone c (p_io p)) (present p sv).
+  ixes (fst (service c p sv)) = flat_map (alone c (p_io p)) (present c p sv).
 Proof.
   intros c p sv H. unfold service, present.
-  destruct (service_cxes (p_hs p) (cxes sv)) as [[pend conn] ab]. cbn [fst snd].
-  pose proof (recv_all_pointwise c (p_io p) (tx_all (p_tx p) (ixes sv) ++ map (fun ca => (ca, init true)) conn)) as R.
-  destruct (recv_all c (p_io p) _) as [ix2 cl]. cbn [fst] in R.
+  destruct (staged c p sv) as [[ix1 pend] cl0]. cbn [fst snd].
+  pose proof (recv_all_pointwise c (p_io p) ix1) as R.
+  destruct (recv_all c (p_io p) ix1) as [ix2 cl]. cbn [fst] in R.
   rewrite (send_all_pointwise c (p_io p) ix2 H). cbn [fst snd ixes]. split; auto.
   rewrite R. unfold alone. apply map_flat_map.
 Qed.
@@ -231,8 +229,36 @@ Theorem server_no_escape : forall c p sv,
   (forall ca, no_raise_send c (send_of (p_io p) ca) = true) ->
   (forall ca, forallb (no_raise_recv c) (recvs_of (p_io p) ca) = true) ->
   snd (service c p sv) = Ok tt /\
-  ixes (fst (service c p sv)) = map (served c (p_io p)) (present p sv).
+  ixes (fst (service c p sv)) = map (served c (p_io p)) (present c p sv).
 Proof.
   intros c p sv Hs Hr. destruct (isolation c p sv Hs) as [A B]. split; auto.
   rewrite B. apply flat_map_singleton. intros x _. apply alone_served. apply Hr.
+Qed.
+
+(* ---------- a repeated address: the old connection is closed, the new one takes its place ---------- *)
+
+Lemma put_ix_spec : forall ca l,
+  lookup ca (put_ix ca l) = Some (init true) /\
+  map fst (put_ix ca l) = (if mem_ix ca l then map fst l else map fst l ++ [ca]) /\
+  (forall k, N.eqb k ca = false -> lookup k (put_ix ca l) = lookup k l).
+Proof.
+  intros ca l. induction l as [|[k s] r IH]; cbn [put_ix mem_ix lookup map fst app].
+  - rewrite N.eqb_refl. repeat split; auto. intros k H. now rewrite H.
+  - destruct IH as (A & B & C). destruct (N.eqb ca k) eqn:E; cbn [lookup map fst orb].
+    + rewrite E. repeat split; auto. intros k0 H. apply N.eqb_eq in E. subst k.
+      cbn [lookup]. now rewrite H.
+    + rewrite E. repeat split; auto.
+      * rewrite B. destruct (mem_ix ca r); reflexivity.
+      * intros k0 H. destruct (N.eqb k0 k); auto.
+Qed.
+
+Theorem replacement : forall ca l,
+  mem_ix ca l = true ->
+  accept_ix [(ca, false)] l = (put_ix ca l, [ca]) /\
+  lookup ca (put_ix ca l) = Some (init true) /\
+  map fst (put_ix ca l) = map fst l /\
+  (forall k, N.eqb k ca = false -> lookup k (put_ix ca l) = lookup k l).
+Proof.
+  intros ca l H. destruct (put_ix_spec ca l) as (A & B & C). rewrite H in B.
+  cbn [accept_ix]. rewrite H. auto.
 Qed.
